@@ -69,6 +69,19 @@ CLAIMS["C04"] = ("escrow-on-creation co-occurrence, once-only refund guards with
     "Static decision of the custody discipline of the liquidity module: requests and orders are recorded only on paths that move their coins into the (global / pair) escrow; requests and orders are refunded at most once, from the right escrow to the stored requester, from their own coins; farming moves coins into the module on the recording path and un-farming is bounded by the recorded amount; pool coins are minted/burnt only by pool creation and the executors, and a burn is followed by the zero-supply test that disables the pool; per-farmer queue records do not inherit entries accumulated across farmers. NOT covered: the balance inequalities as numbers, batch interleavings.",
     "DESIGN.md §3 C04")
 
+CLAIMS["C05"] = ("rounding-direction classification of Dec->Int conversions, over-fill site guard, loop-carried accumulator rule, matched-set site guard, amount provenance",
+    "Thin claim: decides only named structural necessary conditions of matching: buyers' quote payment is rounded up and sellers' receipt down in FillOrder, every order mutation sits behind amt <= MatchableAmount, remaining-amount accumulators of the distribution loops decrease from themselves, an order stays matched only if it is a buy or its share is worth a positive quote amount, and ApplyMatchResult moves the orders' own paid/received amounts and the computed dust. NOT covered (the bulk of the property): conservation over arbitrary books, the price search, pro-rata remainders, limit-price respect.",
+    "DESIGN.md §3 C05")
+CLAIMS["C06"] = ("rounding-direction classification over the whole computation chain, entry-test shape rule, amount provenance",
+    "Thin claim: decides only that amm.Deposit rounds the minted shares down at every inexact step and the accepted coins up, that amm.Withdraw rounds down and tests the last-share case first returning the reserves, and that the executors mint, accept, pay out and burn exactly the values those functions returned. NOT covered: the fairness inequality, the 1e-17 bound, ranged-pool translation and price range (a seeded change there is missed, see DESIGN.md).",
+    "DESIGN.md §3 C06")
+CLAIMS["C10"] = ("clip-guard rules, price/amount provenance, settlement-set presence, sibling field-set rule for restarts",
+    "Thin claim: decides that bids are clipped against the stored remaining collateral/debt, that V2 conversions use the auction's stored price and the oracle/CMST price and the reserve top-up uses the auction's current remaining debt, that the closing settlement contains burn, penalty-to-collector with net-fee increase and totals reduction, and that a restart refreshes initial/current/end price and end time together. NOT covered: totals over bid sequences, monotone price between restarts, one-unit rounding; the missing price checks of the V2 bid path are C14's known findings.",
+    "DESIGN.md §3 C10")
+CLAIMS["C19"] = ("site guards on payouts (comparison strictness), post-payout must-store/must-reduce path rule, sibling agreement",
+    "Thin claim: decides that reward sends sit behind sum of shares <= allocation, that a gauge epoch is paid only behind available >= epoch amount and a guarded split index, that after a payout the gauge is always stored with its remaining balance reduced by what was paid, and that the sibling valuations of farmed pool coins pick the oracle-priced side by the same pair field. NOT covered: that the split sums to the deposit, the 1e-12 floating-point bound, custody >= remainder as numbers.",
+    "DESIGN.md §3 C19")
+
 NOT_APPLICABLE = {
     "C18": "purely numeric relations between evaluations of accrual/rate functions (non-negativity, monotonicity, sub-additivity, continuity; one path through float64 math.Pow); no guard, pairing, provenance or ordering is a necessary condition of them, so no sound static argument in reach applies (DESIGN.md §3 C18, §4).",
 }
